@@ -448,6 +448,28 @@ class Tree:
                             tg.start_soon(self.run_steps, path, f"{phase}#{i}", sub)
                 elif k == "svc":
                     await self._start_service(path, phase, st)
+                elif k == "svc-ta-raise":
+                    label = st[1]
+                    stop_ev = anyio.Event()
+
+                    async def service_ta(label: str = label, stop_ev: Any = stop_ev) -> None:
+                        env.log("svc+", label)
+                        try:
+                            await stop_ev.wait()
+                        except BaseException as e:
+                            env.log("svc!", label, type(e).__name__)
+                            raise
+                        finally:
+                            env.log("svc-", label)
+
+                    async def action(label: str = label, stop_ev: Any = stop_ev) -> None:
+                        env.log("svc-action", label)
+                        stop_ev.set()
+                        await anyio.lowlevel.checkpoint()
+                        raise ConnectionError("teardown action failed after it had told the task to stop")
+
+                    await ac.start_service_task(service_ta, label.replace(":", "_"), teardown_action=action)
+                    env.log("svc-started", label)
                 elif k == "svc-hs":
                     await self._start_handshake_service(path, phase, st)
                 elif k == "svc-none":
